@@ -34,7 +34,7 @@ AGREE_THEOREMS = {
 
 # source-agreement leaves (DESIGN 11.7): interpreting the dumped Python source = the model, for all inputs
 PYAGREE = {
-    'C01': ['LayerWhole', 'LayerSend'],
+    'C01': ['LayerWhole', 'LayerSend', 'LayerInitWhole'],
     'C11': ['LayerWhole'],
     'C18': ['LayerRx', 'LayerTxWhole'],
     'C02': ['MiscFd', 'MiscFrame', 'LayerSend'],
@@ -45,18 +45,18 @@ PYAGREE = {
     'C07': ['MiscTimer'],
     'C08': ['MiscTimer', 'LayerTx', 'SmallFns'],
     'C09': ['AddressFns', 'AddressInit', 'LayerSend'],
-    'C12': ['LayerTxHelpers', 'LayerQueues', 'Exec2Bridge', 'LayerSend'],
+    'C12': ['LayerTxHelpers', 'LayerQueues', 'Exec2Bridge', 'LayerSend', 'LayerInit'],
     'C13': ['PyCan', 'Threaded', 'ThreadedWorker', 'SmallFns'],
-    'C14': ['LayerQueues', 'Exec2Bridge', 'Threaded', 'ThreadedWorker'],
+    'C14': ['LayerQueues', 'Exec2Bridge', 'Threaded', 'ThreadedWorker', 'LayerInit'],
     'C10': ['LayerProcess', 'LayerWhole'],
     'C15': ['LayerTxHelpers', 'LimiterLoop', 'SmallFns'],
-    'C16': ['AddressValidate', 'AddressInit'],
-    'C17': ['LayerTxHelpers', 'LayerTx', 'GenConsume'],
+    'C16': ['AddressValidate', 'AddressInit', 'ParamsValidate'],
+    'C17': ['LayerTxHelpers', 'LayerTx', 'GenConsume', 'LayerInit'],
     'C19': ['SockOpts'],
     'C20': ['AddressFns', 'SockOpts', 'SockGuards'],
 }
 # leaves that are finished and committed
-PYAGREE_READY = {'SmallFns', 'LimiterLoop', 'GenConsume', 'ThreadedWorker', 'Threaded', 'PyCan', 'LayerWhole', 'SockGuards', 'LayerTxWhole', 'MiscFrame', 'LayerProcess', 'LayerTx', 'LayerRx', 'LayerSend', 'LayerTxHelpers', 'LayerQueues', 'Exec2Bridge', 'SockOpts', 'AddressFns', 'AddressValidate', 'AddressInit', 'Pdu', 'MiscFd', 'MiscFc', 'MiscTimer'}
+PYAGREE_READY = {'ParamsValidate', 'LayerInit', 'LayerInitWhole', 'SmallFns', 'LimiterLoop', 'GenConsume', 'ThreadedWorker', 'Threaded', 'PyCan', 'LayerWhole', 'SockGuards', 'LayerTxWhole', 'MiscFrame', 'LayerProcess', 'LayerTx', 'LayerRx', 'LayerSend', 'LayerTxHelpers', 'LayerQueues', 'Exec2Bridge', 'SockOpts', 'AddressFns', 'AddressValidate', 'AddressInit', 'Pdu', 'MiscFd', 'MiscFc', 'MiscTimer'}
 
 
 def pyagree_theorems(mod):
